@@ -3,6 +3,8 @@
 package sstables
 
 import (
+	"runtime/debug"
+
 	"github.com/thomasjungblut/go-sstables/recordio"
 	"github.com/thomasjungblut/go-sstables/vrt"
 )
@@ -59,4 +61,66 @@ func H_C19_Readers() {
 	vrt.Assert(err == nil && mr.Open() == nil, "readers/mmap-open")
 	vrt.Assert(mr.Close() == nil && fs.OpenCount() == 0, "readers/mmap-reader-close-releases-mapping")
 	vrt.Reach("readers/end")
+}
+
+// H_C19_FailedOpen: opening a table with a damaged or missing file either fails and leaves nothing open, or
+// succeeds and Close releases everything.
+func H_C19_FailedOpen() {
+	if !vrt.Symbolic() {
+		// a leaked *os.File would be closed by its finalizer at the next garbage collection
+		defer debug.SetGCPercent(debug.SetGCPercent(-1))
+	}
+	fs := vEnv()
+	defer fs.Cleanup()
+	dir := fs.Path("t")
+	fs.MkdirAll(dir)
+	keys := [][]byte{{'a'}, {'b'}}
+	vals := [][]byte{{vrt.Byte("v0")}, {vrt.Byte("v1")}}
+	vWriteTable(dir, keys, vals, recordio.CompressionTypeSnappy, recordio.CompressionTypeNone, 64)
+	vrt.Assert(fs.OpenCount() == 0, "failedopen/writer-close-releases-everything")
+
+	name := []string{IndexFileName, DataFileName, MetaFileName, BloomFileName}[vrt.Choose("file", 4)]
+	p := fs.Path("t/" + name)
+	data := fs.ReadFile(p)
+	// (the metadata file is only cut, not altered: an altered record count makes the index loaders ask for a
+	// slice of that capacity - a crash, not a leak, and outside this property)
+	if name == MetaFileName || vrt.Choose("damage", 2) == 0 {
+		cut := vScaled("cut", len(data))
+		fs.WriteFile(p, data[:cut])
+	} else {
+		pos := vScaled("pos", len(data))
+		dmg := append([]byte{}, data...)
+		dmg[pos] ^= 0x55
+		fs.WriteFile(p, dmg)
+	}
+	li := vrt.Choose("loader", 4)
+	vrt.Tag("file-" + name)
+	vrt.Tag("loader-" + vLoaderNames[li])
+	r, err := NewSSTableReader(ReadBasePath(dir), ReadBufferSizeBytes(16), ReadIndexLoader(vLoader(li, 16)))
+	// (whether a given cut makes the open fail depends on the record encoding, which is a stand-in under the
+	// engine: not traced)
+	if err != nil {
+		vrt.Reach("failedopen/open-failed")
+		vrt.Assert(fs.OpenCount() == 0, "failedopen/failed-open-leaves-nothing-open")
+	} else {
+		_, _ = r.Get(keys[0])
+		it, serr := r.Scan()
+		if serr == nil {
+			it.Next()
+		}
+		vrt.Assert(r.Close() == nil, "failedopen/close-no-error")
+		vrt.Assert(fs.OpenCount() == 0, "failedopen/close-releases-everything")
+	}
+	vrt.TraceBool("done", true)
+	vrt.Reach("failedopen/end")
+}
+
+// vScaled picks a position 0..n-1 in a way that means the same natively, where the files have other lengths than
+// under the engine (real record encoding): a percentage. Under the engine the files are shorter than 100 bytes,
+// so every position is reached.
+func vScaled(key string, n int) int {
+	if vrt.Symbolic() {
+		vrt.Assert(n <= 100, "failedopen/model-files-are-at-most-100-bytes")
+	}
+	return vrt.Range(key, 0, 99) * n / 100
 }
